@@ -6,16 +6,16 @@ ROOT = os.path.dirname(os.path.dirname(os.path.abspath(__file__)))
 
 CHECKS = {
  "C01": ("reference-machine monitor (concrete RV32IM execution vs. value claims)",
-         "Every generated program is analysed by the real pipeline and executed on a reference RV32IM machine from random initial states; at each executed instruction every Constant/Address/entry+const register claim and every stack-slot claim (in and out) is compared with the machine state of the current activation. Silence means: held on the executions observed (counts in the evidence), not for all programs.",
+         "Every generated program (wild and conforming profiles, plus the directed family of stack slots carried around nested loops) is analysed by the real pipeline and executed on a reference RV32IM machine from random initial states; at each executed instruction every Constant/Address/entry+const register claim and every stack-slot claim (in and out) is compared with the machine state of the current activation. Silence means: held on the executions observed (counts in the evidence), not for all programs.",
          "Trusts the reference machine (written from the ISA spec), the line-based join of instructions to graph nodes, and the generator's coverage of the supported subset."),
  "C02": ("dynamic def-use chain monitor + independent least-fixed-point reference solver",
-         "(a) on the same executions, every register read is traced back to its dynamic definition and every executed node in between must list the register as live; inferred argument/return registers and `Unused value` warnings are checked against what executions read; (b) live_in/live_out of every node are compared with the least solution of the documented equations computed by an independent worklist solver.",
+         "(a) on executions of generated programs (including CSR read/write/set instructions and branches into functions), every register read is traced back to its dynamic definition and every executed node in between must list the register as live; inferred argument/return registers and `Unused value` warnings are checked against what executions read; (b) live_in/live_out of every node are compared with the least solution of the documented equations computed by an independent worklist solver.",
          "Part (b) takes the analyzer's gen/kill sets and ecall table as the documented constants; part (a) models calls/ecalls as the calling convention says."),
  "C03": ("static edge-legality monitor + dynamic executed-transfer monitor",
-         "Static: successor/predecessor sets are inverse, every edge is a fall-through, a jump to the written label or a return merge, exit ecalls have no successors. Dynamic: every control transfer executed by the reference machine inside an activation is an edge and no executed instruction is reported unreachable.",
+         "Static: successor/predecessor sets are inverse, every edge is a fall-through, a jump to the written label or a return merge, exit ecalls have no successors (also ecalls whose exit number is inherited through a jump around another exit, and shared tails). Dynamic: every control transfer executed by the reference machine inside an activation is an edge and no executed instruction is reported unreachable.",
          "Trusts the reference machine and the node join; only executed transfers are required to be edges."),
  "C04": ("conforming-by-construction generator + dynamic convention monitor, oracle = no diagnostics",
-         "Programs that follow the calling convention by construction (random call graphs incl. recursion, nesting, frames, saved-register subsets, ecalls, early returns, any surface style) and that the dynamic convention monitor confirms on 3 executions must get zero diagnostics.",
+         "Programs that follow the calling convention by construction (random call graphs incl. recursion, nesting, frames, saved-register subsets, ecalls, early returns, error-exit blocks behind the epilogue, functions before or after main, any surface style) and that the dynamic convention monitor confirms on 3 executions must get zero diagnostics.",
          "A generator bug could look like a false positive; the dynamic convention monitor is the second, independent premise check (a failed premise is never a violation)."),
  "C05": ("fault injection into clean programs, oracle = expected diagnostic kind at the planted site",
          "15 violation classes are planted one at a time into programs that are clean in the same run; a diagnostic of the expected kind must sit on the offending instruction/operand (label for fall-through; entry or related jump for jump-to-function).",
@@ -33,10 +33,10 @@ CHECKS = {
          "Every AvailableValue / MemoryLocation variant with boundary payloads, register sets and maps are dumped (serde_yaml), reloaded and compared, and distinct values must have distinct dumps; whole-graph dumps of generated programs must reload and re-dump identically, fact-different one-instruction mutants must have different dumps; a decoder rebuilds every field (edges, liveness, facts, labels, per-node (entry, exit) pairs of its functions) from the dump and compares it with the analysis; also through `rva lint --yaml`; checked and release builds.",
          "Sets emitted as lists are compared as sets."),
  "C07": ("mutation workload + coverage/containment oracle over parser executions",
-         "One line of a one-statement-per-line file is replaced by a malformed one (15 defect kinds, first/middle/last/two consecutive lines), plus whole-file CR/LF endings and a final line truncated after each token with/without newline. Every non-blank line must yield a node starting on it or a parse error located on it, and all other lines must parse exactly as when the bad line is blank.",
+         "One line of a one-statement-per-line file is replaced by a malformed one (17 defect kinds incl. directives without operands and statements cut after any token; first/middle/last/two consecutive lines), plus whole-file CR/LF endings and a final line truncated after each token with/without newline. Every non-blank line must yield a node starting on it or a parse error located on it, and all other lines must parse exactly as when the bad line is blank.",
          "Trusts the harness's classification of which lines carry content."),
  "C09": ("reference-model monitor for positions over lexer/parser/diagnostic executions",
-         "Every token of the real lexer, every parsed node, every parse error and diagnostic of programs printed in 7 layouts (header, first line, leading blank lines, styled, two statements per line, included files, no final newline) is checked against an independent line/column/raw model: mutually consistent, inside the file, on one line, and the slice is exactly the token / statement / register named.",
+         "Every token of the real lexer, every parsed node, every parse error and diagnostic of programs printed in 9 layouts (header, first line, leading blank lines, styled, two statements per line, included files, no final newline, CR/LF and mixed line endings) is checked against an independent line/column/raw model: mutually consistent, inside the file, on one line, and the slice is exactly the token / statement / register named.",
          "Inclusive-end, char-indexed convention taken from the repository's golden JSON files."),
  "C11": ("reference-model monitor at the quiescent point after gen_full_cfg",
          "Call targets computed from the harness AST and reachable sets computed by BFS over the observed successor edges are compared with the function map, node lists, owner lists and exits of the finished graph for hand-written shapes (aliases, interleaved bodies, shared tails, fall-through entry, recursion, dead callers, multiple returns, interrupt handlers) and generated programs; sharing must be reported exactly when it exists.",
@@ -45,22 +45,22 @@ CHECKS = {
          "Programs that parse but may be impossible to analyse (undefined / duplicate labels, labels without instruction, functions without return, returns outside functions, calls into data, label-only files, the same split into included files) must produce a specific error located on a real label in a user file and visible in the default CLI output, never Unexpected/Assertion errors; a reference model of label hygiene (every definition and use in the program text) demands a label error whenever a label is duplicated or undefined.",
          "When several labels are undefined any one may be the location."),
  "C08": ("reference-machine differential monitor + rustc overflow-check sanitizer build",
-         "Every mnemonic x operand form is parsed by the real parser and the decoded nodes are executed on the reference machine against the official expansion from boundary and random states; MathOp::operate is compared with a reference ALU on a complete 24x24 boundary grid per operator plus random pairs, in the checked (overflow-checks) and release builds.",
+         "Every mnemonic x operand form is parsed by the real parser and the decoded nodes are executed on the reference machine against the official expansion from boundary and random states; and, as table 4, the same boundary grid is run through the whole analysis (`li; li; op` with register, zero-register and immediate operands): every constant the analysis claims must be the RV32IM value; MathOp::operate is compared with a reference ALU on a complete 24x24 boundary grid per operator plus random pairs, in the checked (overflow-checks) and release builds.",
          "Trusts the harness's reference ALU/expansion tables (from the ISA and assembler manuals)."),
  "C10": ("repeated-execution monitor over hash-order schedules (fresh threads and separate processes)",
          "The same file sets are linted repeatedly in fresh threads (RVParser::run and the staged route) and as separate rva processes in every output mode; all results must be identical sequences and contain no two equal items. The evidence reports how many distinct hash orders were actually seen.",
          "Only the hash orders that occurred are covered."),
  "C12": ("extra-pass-run history monitor + sweep-counter hook",
-         "After gen_full_cfg a canonical snapshot of all facts is taken through public getters; random sequences of extra AvailableValue/EcallTermination/Liveness runs must leave snapshot and diagnostics unchanged; the same parsed program analysed twice must give the same facts; the verif-hooks sweep counters must stay under a linear bound (a sweep limit turns non-termination into an observable event).",
+         "Generated programs, trap handlers, shared tails, loop-carried stack slots, exit ecalls with inherited numbers and semantic mutants (valid programs with retargeted jumps, stack-pointer games, reserved label names): after gen_full_cfg a canonical snapshot of all facts is taken through public getters; a fixed-point loop that exceeds the sweep limit is reported as non-termination; random sequences of extra AvailableValue/EcallTermination/Liveness runs must leave snapshot and diagnostics unchanged; the same parsed program analysed twice must give the same facts; the verif-hooks sweep counters must stay under a linear bound (a sweep limit turns non-termination into an observable event).",
          "Reproducibility is compared only when no function has two returns."),
  "C13": ("metamorphic monitor: surface rewrites of the same AST",
-         "Each program is printed in the base-ISA style and under 18 single-feature rewrites plus random compositions; the multisets of (kind, instruction index, register concerned) must be equal.",
+         "Each program (generated, or the boundary-literals family) is printed in the base-ISA style and under 18 single-feature rewrites plus random compositions; the multisets of (kind, instruction index, register concerned) must be equal.",
          "Diagnostics are identified by instruction index and register, not by columns (positions are C09's subject)."),
  "C14": ("metamorphic monitor: label renaming and register permutation",
-         "Labels are renamed injectively and t0-t6 / s0-s11 permuted consistently; the renamed program must get exactly the original diagnostics with registers mapped through the permutation.",
+         "Labels are renamed injectively (sometimes to names that look like the analyzer's internal ones) and t0-t6 / s0-s11 permuted consistently (hand-written shapes incl. trap handlers and refused programs get every rotation of each class); the renamed program must get exactly the original diagnostics (kind, place, register) with registers mapped through the permutation, and the same wording with the names mapped.",
          "Argument registers are not permuted."),
  "C17": ("reference-model monitor over front-end executions + rustc overflow-check sanitizer build",
-         "Every boundary magnitude in decimal/hex/binary with both signs, letter cases and zero padding, character literals, malformed spellings and random 32-bit values are pushed through the real lexer+parser in 8 operand contexts; value, acceptance, error location and panics are compared with a denotation model, in checked and release builds.",
+         "Every boundary magnitude in decimal/hex/binary with both signs, letter cases and zero padding, character literals incl. \\u escapes, malformed spellings (numbers and character literals) and random 32-bit values are pushed through the real lexer+parser in 8 operand contexts; value, acceptance, error location and panics are compared with a denotation model, in checked and release builds.",
          "Trusts the harness's denotation model; boundary sub-space enumerated completely, the rest sampled."),
 }
 
